@@ -19,6 +19,9 @@ var Verif = envOr("VERIF", "/verif")
 var Repo = envOr("REPO", "/repo")
 var Build = envOr("VERIF_BUILD", filepath.Join(Verif, ".build"))
 
+// Out is where evidence/ and replays/ are written (the mutant self-test redirects it).
+var Out = envOr("VERIF_OUT", Verif)
+
 func envOr(k, d string) string {
 	if v := os.Getenv(k); v != "" {
 		return v
@@ -161,7 +164,7 @@ func (c *Ctx) Violation(key, what string, files map[string]string) bool {
 	if len(name) > 120 {
 		name = name[:120]
 	}
-	dir := filepath.Join(Verif, "replays", c.ID, name)
+	dir := filepath.Join(Out, "replays", c.ID, name)
 	os.MkdirAll(dir, 0o755)
 	if files == nil {
 		files = map[string]string{}
@@ -231,10 +234,10 @@ func (c *Ctx) Finish() int {
 		e["assumptions"] = []string{}
 	}
 	b, _ := json.MarshalIndent(e, "", " ")
-	os.MkdirAll(filepath.Join(Verif, "evidence"), 0o755)
-	tmp := filepath.Join(Verif, "evidence", c.ID+".json.tmp")
+	os.MkdirAll(filepath.Join(Out, "evidence"), 0o755)
+	tmp := filepath.Join(Out, "evidence", c.ID+".json.tmp")
 	os.WriteFile(tmp, b, 0o644)
-	os.Rename(tmp, filepath.Join(Verif, "evidence", c.ID+".json"))
+	os.Rename(tmp, filepath.Join(Out, "evidence", c.ID+".json"))
 	fmt.Printf("%s %s: states=%v transitions=%v violations=%d known=%d exhaustive=%v wall=%.1fs\n", c.ID, c.Tier,
 		cov["states"], cov["transitions"], len(c.viol), len(c.knownSeen), cov["exhaustive"], time.Since(c.Start).Seconds())
 	if len(c.broken) > 0 {
